@@ -183,6 +183,8 @@ def make_sched(spec: dict) -> ScheduledTask:
         kw["cron_offset"] = make_offset(spec.get("offset"))
     else:
         kw["time"] = make_time(spec["time"])
+        if spec.get("offset") is not None:
+            kw["cron_offset"] = make_offset(spec["offset"])      # legal, and meaningless for a one-shot: its time is an instant
     return ScheduledTask(**kw)
 
 
@@ -415,6 +417,8 @@ def build(world: SchedWorld) -> Any:
                             ent["cron_offset"] = make_offset(e["offset"])
                     if e.get("time") is not None:
                         ent["time"] = make_time(e["time"])
+                        if e.get("cron") is None and e.get("offset") is not None:
+                            ent["cron_offset"] = make_offset(e["offset"])
                     if "id" in e:
                         ent["args"] = [e["id"]] + list(e.get("args", []))
                     if e.get("kwargs"):
